@@ -14,7 +14,7 @@ RULE = ('case = residue string of length 2..15 over the 20 standard letters + U,
 ASSUMPTIONS = [
     'offsets (CO, NH3, H2, water, proton) come from pv/refchem.py; b_i = residues + modifications + proton is the absolute anchor',
     'internal ions: terminal offsets of both cleavage types applied to the span, as the property states (reproduces ay, by, cy)',
-    'tolerance 1e-5 Da; in average mode a relation containing k charge carriers gets 1e-5 + k*1.2e-4 (the property does not say whether "a proton" is the CODATA proton or average hydrogen minus an electron)',
+    'tolerance 1e-5 Da; in average mode each of the k charge carriers of a relation may be the CODATA proton or average hydrogen minus an electron (the property does not say which): the difference must lie within 1e-5 of j x 1.157e-4 for some j in 0..k - a discrete set, not a band',
 ]
 
 TERMINAL = ['a', 'b', 'c', 'x', 'y', 'z']
@@ -23,7 +23,19 @@ ALL = TERMINAL + INTERNAL + ['i']
 
 
 def _tol(mono, charge):
-    return 1e-5 if mono else 1e-5 + 1.2e-4 * charge
+    return 1e-5
+
+
+_AVG_CARRIER = (refchem.atom_mass('H', False) - refchem.ELECTRON) - refchem.PROTON   # 1.157e-4
+
+
+def _off(d, mono, carriers):
+    """is the difference d outside the tolerance?  monoisotopic: 1e-5.  average: the property does not say whether a charge carrier
+    is the CODATA proton or average hydrogen minus an electron, so each of the `carriers` carriers may be either - d must be within
+    1e-5 of k x 1.157e-4 for some k in 0..carriers (a discrete set, not a band)"""
+    if mono:
+        return abs(d) > 1e-5
+    return all(abs(d - k * _AVG_CARRIER) > 1e-5 for k in range(0, carriers + 1))
 
 
 def _spans(n, t):
@@ -69,14 +81,14 @@ def check_case(case) -> Result:
                     continue
                 ref = refmass.ion_mass(sl, t, z, mono)
                 d = got - ref
-                if abs(d) > _tol(mono, z):
+                if _off(d, mono, z):
                     hyd = refchem.atom_mass('H', mono)
                     if abs(d - hyd) <= _tol(mono, z) + 2e-4 and t in ('ax', 'az', 'bx', 'bz'):
                         key = (t, 'H')
                         sig = f'C05/internal/{t}/one-hydrogen-above-terminal-offsets'
                     else:
                         key = (t, 'wrong', z > 1)
-                        sig = f'C05/{t}/wrong-offset' + ('/charge>1' if z > 1 and abs((ions.get((t, a, b, 1), 0) - refmass.ion_mass(sl, t, 1, mono))) <= _tol(mono, 1) else '')
+                        sig = f'C05/{t}/wrong-offset' + ('/charge>1' if z > 1 and abs((ions.get((t, a, b, 1), 0) - refmass.ion_mass(sl, t, 1, mono))) <= 1.5e-4 else '')
                     if key not in reported:
                         reported.add(key)
                         r.fail('ion mass follows from backbone-cleavage chemistry', sig, ion=t, span=[a, b], charge=z,
@@ -86,7 +98,7 @@ def check_case(case) -> Result:
     p = refchem.PROTON
     for i in range(1, n):
         b1, y1 = ions.get(('b', 0, i, 1)), ions.get(('y', i, n, 1))
-        if b1 is not None and y1 is not None and abs(b1 + y1 - (M + 2 * p)) > _tol(mono, 2):
+        if b1 is not None and y1 is not None and _off(b1 + y1 - (M + 2 * p), mono, 2):
             r.fail('b_i + y_(n-i) = M + 2 protons', 'C05/relation/b+y', i=i, b=b1, y=y1, M=M, **ctx)
             break
     co, nh3, h2 = (refchem.comp_mass(c, mono) for c in (refchem.CO, refchem.NH3, refchem.H2))
@@ -109,7 +121,7 @@ def check_case(case) -> Result:
         sl = model.m_slice(pep, a, b)
         got = pt.mass(model.write_pep(sl), ion_type=t, charge=z, monoisotopic=mono)
         ref = refmass.ion_mass(sl, t, z, mono)
-        if abs(got - ref) > _tol(mono, z):
+        if _off(got - ref, mono, z):
             hyd = refchem.atom_mass('H', mono)
             if abs(got - ref - hyd) <= _tol(mono, z) + 2e-4 and t in ('ax', 'az', 'bx', 'bz'):
                 sig = f'C05/internal/{t}/one-hydrogen-above-terminal-offsets'
